@@ -142,6 +142,7 @@ func c01Case(c *Ctx) *Result {
 	// a receiving application that stops reading for minutes while the sender keeps the
 	// connection full (a paused download): nothing may be lost, however long the bytes wait
 	longPause := isVirtual && c.Idx%16 == 15 // minutes of pause: virtual time only
+	brief := 0
 	pauseDir := r.Intn(2)
 	pauseS := 0
 	if longPause {
@@ -157,6 +158,19 @@ func c01Case(c *Ctx) *Result {
 		p.GapMs = [2][]int{}
 		p.R[pauseDir] = []int{65536}
 		pauseS = pick(r, 20, 45, 70, 130, 200, 400)
+		if c.Idx%32 == 31 {
+			// the client's application pauses for less than a minute, and
+			// meanwhile opens, uses and closes another proxy connection that
+			// shares the TCP connection
+			pauseDir, pauseS, mult = 1, pick(r, 20, 45), 3
+			p.W[0], p.W[1] = []int{10}, nil
+			for k := 0; k < 6000; k++ {
+				p.W[1] = append(p.W[1], 8)
+			}
+			p.R[1] = []int{65536}
+			p.ReadPause = [2]*Pause{}
+			brief = 1
+		}
 		p.ReadPause[pauseDir] = &Pause{AfterBytes: 8, Dur: time.Duration(pauseS) * time.Second}
 		p.CloseBy = pauseDir // the writer of the bulk direction closes after everything was read
 	}
@@ -199,8 +213,8 @@ func c01Case(c *Ctx) *Result {
 	if c.Idx%5 == 3 {
 		unused = 1 + c.Idx%2
 	}
-	params["unused_connections"] = unused
-	rs, timedOut := runTransfer(env, cm, plans, XferOpt{AllKeys: keys, MaxLen: int64(budget), Watchdog: 1200 * time.Second, Unused: unused})
+	params["unused_connections"], params["brief_connections"] = unused, brief
+	rs, timedOut := runTransfer(env, cm, plans, XferOpt{AllKeys: keys, MaxLen: int64(budget), Watchdog: 1200 * time.Second, Unused: unused, Brief: brief, BriefAfter: 8 * time.Second})
 	rep := analyzeTCP(env, WireOpts{Users: env.Cfg.Users, Pat: [2]*patT{env.PatCE, env.PatSE}})
 	compareStreams(rep, rs, plans)
 	res.Obs = rep.Obs
